@@ -5,7 +5,7 @@ cd /verif
 OUT=seeded/final_validation.log; : > $OUT
 [ -z "$(git -C /repo status --porcelain)" ] || { echo "/repo is not clean"; exit 2; }
 trap 'git -C /repo checkout -- . ; echo "interrupted: /repo restored" >> /verif/seeded/final_validation.log' INT TERM HUP
-for d in seeded/C*/; do
+for d in /verif/seeded/C*/; do
   n=$(basename $d); id=$(echo $n | cut -c1-3)
   [ -f $d/patch.diff ] || continue
   if git -C /repo apply --check $d/patch.diff 2>/dev/null; then
